@@ -115,7 +115,20 @@ class Diagram:
         return f"names={self.names} decl={[DECL_FORMS[d] for d in self.decl]} order={self.order} noise={self.noise} style={self.style}"
 
 
-def parse_text(text: str, real_file: bool = False):
+_SCRATCH = None
+
+
+def _scratch() -> str:
+    global _SCRATCH
+    if _SCRATCH is None or not os.path.isdir(_SCRATCH):
+        import atexit
+
+        _SCRATCH = tempfile.mkdtemp(prefix="c06_", dir=os.environ.get("VERIF_SCRATCH"))
+        atexit.register(shutil.rmtree, _SCRATCH, True)
+    return _SCRATCH
+
+
+def parse_text(text: str, real_file: bool = False, decoy: bool = True):
     """Real PumlParser().parse on the text; the file is served through an `open` stub in the parser module's
     namespace (real_file=True: a real scratch file, unpatched code)."""
     from pathlib import Path
@@ -123,14 +136,15 @@ def parse_text(text: str, real_file: bool = False):
     import pytestarch.diagram_extension.diagram_parser as dp
 
     if real_file:
-        d = tempfile.mkdtemp(prefix="c06_", dir=os.environ.get("VERIF_SCRATCH"))
-        try:
-            p = os.path.join(d, "d.puml")
+        # one fixed path per process, rewritten for every diagram: a diagram edited in place must be re-read
+        p = os.path.join(_scratch(), "d.puml")
+        if decoy:
             with open(p, "w", encoding="utf-8") as f:
-                f.write(text)
-            return _run_parser(dp, Path(p))
-        finally:
-            shutil.rmtree(d, ignore_errors=True)
+                f.write("@startuml\n[decoy_x] --> [decoy_y]\n@enduml\n")
+            _run_parser(dp, Path(p))
+        with open(p, "w", encoding="utf-8") as f:
+            f.write(text)
+        return _run_parser(dp, Path(p))
     dp.open = lambda *a, **k: io.StringIO(text)
     try:
         return _run_parser(dp, Path("/nonexistent/diagram.puml"))
